@@ -3,24 +3,27 @@ import re
 
 from . import c14
 from . import lib_c14 as L
-from .lib import PLUMBING, closure_of_operand, result_split
+from .lib import PLUMBING, result_split
 
 LEVEL = "other"
-TECHNIQUE = ("static analysis: variant-aware value origins of the two fields of every ResultsPage built by ResultsPage::new (token from the LAST item through Option::map+transpose or "
-             "match / if let / let-else, items moved unmodified), forward flow of the token error to the return, plus the C14 codec/bound/limit decisions re-evaluated")
+TECHNIQUE = ("static analysis on the normalised MIR (Option/Result combinators desugared into switches with their closures spliced in, new helpers inlined): variant-aware value origins of the two "
+             "fields of every ResultsPage built by ResultsPage::new, evaluated per edge of the test of <[T]>::last(items) (the values next_page can hold on the paths through the Some edge / the None edge; "
+             "items moved unmodified), forward flow of the token error to the return, plus the C14 codec/bound/limit decisions re-evaluated")
 LEVEL_TEXT = ("Only the framework's structural necessary conditions of a complete scan are decided, on the MIR of the current tree (extracted helpers inlined): every Ok payload of "
-              "ResultsPage::new is a ResultsPage aggregate whose next_page is present exactly when <[T]>::last(items) is Some (i.e. the page is non-empty) — either "
-              "transpose(map(last(items), token closure)) or Some(token) built only on the Some edge / None only on the None edge of the test of last(items) — the token is the Ok payload of "
+              "ResultsPage::new is a ResultsPage aggregate built after the one test of <[T]>::last(items), whose next_page is present exactly when last(items) is Some (i.e. the page is non-empty): "
+              "on the paths through the Some edge of the test every value it can hold is Some(token), on the paths through the None edge None — whether the test is a match / if let / let-else or the "
+              "switch of a desugared `.map(..).transpose()?` / `.map_or(Ok(None), ..)?` — the token is the Ok payload of "
               "serialize_page_token(get_page_selector(that last item, scan_params)) and the token error flows unchanged to the return on every path of its error edge (`?` or match + return) "
               "rather than being turned into `no more pages`; `items` reaches the result unmodified (no mutable borrow, no transformation); a token issued is accepted back and yields "
               "the same selector (C14.R1/R2 re-evaluated) and the effective limit is min(client limit, max) / default (C14.R5 re-evaluated). "
               "NOT decided: termination and exactly-once coverage of a scan — they depend on the consumer's handler (its query and its selector) and on run-time histories.")
 LEVEL_NOTE = ("Trusts rustc MIR, the extractor, engine slices/dominators/helper inlining, rules/lib_c14.py, absint; <[T]>::last returns the final element and is None iff the slice is empty; "
               "Option::map / transpose / `?` preserve Some-ness. The consumer's get_page_selector and its query are outside the analysed crate.")
-EXPLANATION = ("ORIGIN traces (lib_c14.trace, projection- and variant-sensitive) from ResultsPage{next_page, items} back to <[T]>::last(items) and serialize_page_token; FEASIBLE-PATH dominance for "
-               "the inline (match / if let / let-else) form; absence of &mut borrows on the items chain; forward ERROR FLOW of the token Result; re-evaluation of C14.R1, C14.R2 "
+EXPLANATION = ("ORIGIN traces (lib_c14.trace, projection- and variant-sensitive, restricted to the definitions on the feasible paths through one edge of the test of last(items); lib_c14.option_cases looks "
+               "through transpose) from ResultsPage{next_page, items} back to <[T]>::last(items) and serialize_page_token, on the normalised view where map / map_or / and_then / Result::map(Some) are "
+               "switches; absence of &mut borrows on the items chain; forward ERROR FLOW of the token Result (lib_c14.err_flow: `?`, threaded ControlFlow aggregates, transpose, match); re-evaluation of C14.R1, C14.R2 "
                "(SIBLINGS-AGREE) and C14.R5 (DECIDE) under C15 rule ids.")
-TRUSTED = ["rustc nightly MIR", "mirfacts extractor", "rules/engine.py", "rules/lib_c14.py", "rules/absint.py", "core::slice::last, Option::map, Option::transpose semantics", "C14's trusted base for R2a-c"]
+TRUSTED = ["rustc nightly MIR", "mirfacts extractor", "rules/engine.py (incl. combinator desugaring, helper inlining, jump threading)", "rules/lib_c14.py", "rules/absint.py", "core::slice::last, Option::map, Option::transpose semantics", "C14's trusted base for R2a-c"]
 
 NEW = r"^pagination::ResultsPage::<ItemType>::new$"
 PAGE_ADT = "pagination::ResultsPage"
@@ -29,22 +32,12 @@ FNCALL = r"^std::ops::(Fn|FnMut|FnOnce)::(call|call_mut|call_once)$"
 VEC_VIEW = [r"Vec::<T, A>::as_slice$", r"^core::slice::<impl \[T\]>::iter$"]
 
 
-def _origin_in_parent(f, g, node, o):
-    """An origin inside closure g that is a captured variable (field k of the environment): its origins in the parent f,
-    through the operands of the closure aggregate `node`.  Anything else: None."""
-    if o.kind != "param" or o.info["index"] != 1 or len(o.proj) != 1 or o.proj[0][0] != "f" or node is None:
-        return None
-    k = o.proj[0][1]
-    if k >= len(node["rv"]["ops"]):
-        return None
-    return L.trace(f, node["rv"]["ops"][k], PLUMBING)[0]
-
-
 def r1_results_page(ctx):
     R = ctx.rule("C15.R1", "ResultsPage::new: next_page is Some exactly when <[T]>::last(items) is, its value is serialize_page_token(get_page_selector(that last item, scan_params)) "
                  "with errors propagated, and items is moved into the page unmodified", floor=8)
-    f = ctx.need_fn(ctx.ds, R, NEW)
-    fns = [f] + ctx.ds.descendants(f)
+    # normalised view: Option::map / map_or / and_then with their closures, Result::map(Some), helpers: all one body
+    f = ctx.need_fn(ctx.dsn, R, NEW)
+    fns = [f] + ctx.dsn.descendants(f)
     fields = [fl["name"] for fl in ctx.ds.adts[PAGE_ADT]["variants"][0]["fields"]]
     # every Ok(..) the constructor returns is a ResultsPage{next_page, items} built here (one, or one per early return)
     pages, _ = L.ok_payload(f)
@@ -74,85 +67,82 @@ def r1_results_page(ctx):
               "receiver of last() originates from %s; other element accessors in the function: %s" % (L.describe(o), firsts), (f, lbb))
     # ---- the serialize call and the selector call feeding it
     sers = [(g, bb, t) for g in fns for bb, t in g.live_calls(c14.SER)]
-    if len(sers) != 1:
-        ctx.lost(R, "serialize_page_token call in ResultsPage::new or its closures (%d)" % len(sers))
+    if len(sers) != 1 or sers[0][0] is not f:
+        ctx.lost(R, "the one serialize_page_token call of ResultsPage::new (%d call sites, %d of them in closures that are not Option/Result combinator arguments)" % (
+            len(sers), len([1 for g, _, _ in sers if g is not f])))
         return
-    g, sbb, st = sers[0]
-    so, _ = L.trace(g, st["args"][0], PLUMBING)
+    _, sbb, st = sers[0]
+    so, _ = L.trace(f, st["args"][0], PLUMBING)
     sel = so[0] if len(so) == 1 and so[0].is_call(FNCALL) and not so[0].proj else None
-    ctx.check(R, "token-is-of-the-selector", sel is not None, "serialize_page_token's argument originates from %s (must be the selector function's result)" % L.describe(so), (g, sbb))
+    ctx.check(R, "token-is-of-the-selector", sel is not None, "serialize_page_token's argument originates from %s (must be the selector function's result)" % L.describe(so), (f, sbb))
     if sel is None:
         ctx.lost(R, "the get_page_selector(..) call feeding serialize_page_token")
         return
     cbb, ct = sel.bb, sel.node
-    tup, _ = L.trace(g, ct["args"][1]) if len(ct["args"]) > 1 else ([], None)
+    tup, _ = L.trace(f, ct["args"][1]) if len(ct["args"]) > 1 else ([], None)
     if len(tup) != 1 or tup[0].kind != "agg" or tup[0].info.get("agg") != "tuple" or len(tup[0].info["fields"]) != 2:
         ctx.lost(R, "argument tuple (item, scan_params) of the selector call")
         return
-    o_item, _ = L.trace(g, tup[0].info["fields"][0], PLUMBING)
-    o_scan, _ = L.trace(g, tup[0].info["fields"][1], PLUMBING)
-    o_fn, _ = L.trace(g, ct["args"][0], PLUMBING)
-    # the token value(s) stored in next_page, and how Some-ness follows last()
-    nexts = []
-    for a in aggs:
-        nexts += [o for o in L.trace(f, a.info["fields"][i_next], PLUMBING)[0] if o not in nexts]
+    o_item, _ = L.trace(f, tup[0].info["fields"][0], PLUMBING)
+    o_scan, _ = L.trace(f, tup[0].info["fields"][1], PLUMBING)
+    o_fn, _ = L.trace(f, ct["args"][0], PLUMBING)
+    ctx.check(R, "selector-item-is-the-last-item", L.only_call(o_item, LAST, lbb, L.SOME_0),
+              "selector's item argument originates from %s (must be the Some payload of last(items))" % L.describe(o_item), (f, cbb))
+    ctx.check(R, "selector-and-scan-params-are-the-arguments", L.only_param(o_fn, 3) and L.only_param(o_scan, 2),
+              "the selector function is %s, its second argument %s (must be new()'s get_page_selector and scan_params)" % (L.describe(o_fn), L.describe(o_scan)), (f, cbb))
+    # ---- next_page, case by case of the test of last(items) (match / if let / let-else / the switch of a desugared map / map_or):
+    # on the paths through its Some edge every value next_page can have is Some(Ok payload of serialize_page_token), on the paths
+    # through its None edge it is None; `.transpose()?` is looked through; every page is built after the test
     feas = L.Feas(f)
-    closure_node = None
-    if g is not f:
-        # closure form: last(items).map(|item| serialize_page_token(selector(item, scan))).transpose() -> `?` / match
-        tr = [o for o in nexts if o.is_call(r"Option::<std::result::Result<T, E>>::transpose$", None, L.OK_0)]
-        mp, recv = [], []
-        for o in tr:
-            mp += L.trace(f, o.node["args"][0], PLUMBING)[0]
-        maps = [o for o in mp if o.is_call(r"Option::<T>::map$") and not o.proj and len(o.node["args"]) > 1 and closure_of_operand(f, o.node["args"][1])[0] is g]
-        for o in maps:
-            recv += L.trace(f, o.node["args"][0], PLUMBING + VEC_VIEW)[0]
-            closure_node = closure_of_operand(f, o.node["args"][1])[1]
-        shape = len(tr) == len(nexts) >= 1 and len(maps) == len(mp) == 1
-        ctx.check(R, "selector-item-is-the-last-item", L.only_param(o_item, 2) and shape and L.only_call(recv, LAST, lbb, ()),
-                  "selector's item argument originates from %s of the closure, which is mapped over %s" % (L.describe(o_item), L.describe(recv)), (g, cbb))
-        ro, _ = L.trace(g, (0, ()), PLUMBING)
-        ctx.check(R, "closure-returns-the-token", L.only_call(ro, c14.SER, sbb, ()), "closure result originates from %s (must be the serialize_page_token(..) result)" % L.describe(ro), g)
-        pf = [_origin_in_parent(f, g, closure_node, x) for x in o_fn] if len(o_fn) == 1 else [None]
-        ps = [_origin_in_parent(f, g, closure_node, x) for x in o_scan] if len(o_scan) == 1 else [None]
-        ctx.check(R, "selector-and-scan-params-are-the-arguments", pf[0] is not None and ps[0] is not None and L.only_param(pf[0], 3) and L.only_param(ps[0], 2),
-                  "the selector function is %s, its second argument %s (must be new()'s get_page_selector and scan_params)" % (
-                      L.describe(pf[0] or o_fn), L.describe(ps[0] or o_scan)), (g, cbb))
-        ctx.check(R, "next_page-present-iff-last-is", shape and L.only_call(recv, LAST, lbb, ()),
-                  "ResultsPage.next_page originates from %s, i.e. transpose(map(%s, token closure)): Some exactly when last(items) is" % (L.describe(nexts), L.describe(recv)), (f, aggs[0].bb))
-        err_local = tr[0].node["dest"]["l"] if shape else None
-    else:
-        # inline form: Some(token) built where last(items) is known Some, None where it is known None (match / if let / let-else)
-        ctx.check(R, "selector-item-is-the-last-item", L.only_call(o_item, LAST, lbb, L.SOME_0),
-                  "selector's item argument originates from %s (must be the Some payload of last(items))" % L.describe(o_item), (f, cbb))
-        ctx.check(R, "selector-and-scan-params-are-the-arguments", L.only_param(o_fn, 3) and L.only_param(o_scan, 2),
-                  "the selector function is %s, its second argument %s (must be new()'s get_page_selector and scan_params)" % (L.describe(o_fn), L.describe(o_scan)), (f, cbb))
-        somes = [o for o in nexts if o.kind == "agg" and o.info.get("adt") == "std::option::Option" and o.info.get("variant") == "Some" and not o.proj]
-        nones = [o for o in nexts if o.kind == "agg" and o.info.get("adt") == "std::option::Option" and o.info.get("variant") == "None" and not o.proj]
-        tok_ok = bool(somes)
-        for o in somes:
-            po, _ = L.trace(f, o.info["fields"][0], PLUMBING)
-            tok_ok = tok_ok and L.only_call(po, c14.SER, sbb, L.OK_0)
-        ctx.check(R, "closure-returns-the-token", tok_ok, "the Some(..) payload of next_page must be the Ok payload of serialize_page_token(..) (%d Some sites)" % len(somes), (f, sbb))
-        tests = [(wbb, s_t, n_t) for wbb, s_t, n_t, optop in L.option_edges(f) if L.only_call(L.trace(f, optop, PLUMBING)[0], LAST, lbb, ())]
-        ok = len(tests) == 1 and bool(somes) and bool(nones) and len(somes) + len(nones) == len(nexts)
-        if ok:
-            wbb, s_t, n_t = tests[0]
-            ok = all(feas.edge_dominates(wbb, s_t, o.bb) for o in somes) and all(feas.edge_dominates(wbb, n_t, o.bb) for o in nones) and feas.edge_dominates(wbb, s_t, sbb)
-        ctx.check(R, "next_page-present-iff-last-is", ok, "next_page originates from %s: Some(token) built only where last(items) is Some (%d), None only where it is None (%d); tests of last(items): %d" % (
-            L.describe(nexts), len(somes), len(nones), len(tests)), (f, lbb))
-        err_local = st["dest"]["l"]
-    # ---- token errors propagate (`?`, match + return Err, map_err: the same flow)
-    if err_local is None:
-        ctx.lost(R, "the Result carrying the token error in ResultsPage::new")
-        return
-    ends = L.err_flow(f, err_local)
+    tests = [(wbb, s_t, n_t) for wbb, s_t, n_t, optop in L.option_edges(f) if L.only_call(L.trace(f, optop, PLUMBING)[0], LAST, lbb, ())]
+    n_some = n_none = 0
+    tok_ok = iff_ok = len(tests) == 1
+    bad = []
+    if tok_ok:
+        wbb, s_t, n_t = tests[0]
+        for want, tgt in (("some", s_t), ("none", n_t)):
+            after = feas.after_edge(wbb, tgt)
+            on = L.blocks_through_edge(f, feas, wbb, tgt)
+            n = 0
+            for a in aggs:
+                if not f.dominates(wbb, a.bb):
+                    iff_ok = False
+                    bad.append("a page is built without testing last(items)")
+                if a.bb not in after:
+                    continue
+                for kind, pay, bb in L.option_cases(f, a.info["fields"][i_next], PLUMBING, blocks=on):
+                    n += 1
+                    if kind != want:
+                        iff_ok = False
+                        bad.append("%s where last(items) is %s" % ("None" if kind == "none" else "Some(..)" if kind == "some" else pay.describe(), "Some" if want == "some" else "None"))
+                    elif kind == "some":
+                        po = L.trace_payload(f, pay, PLUMBING, blocks=on)
+                        if not L.only_call(po, c14.SER, sbb, L.OK_0):
+                            tok_ok = False
+                            bad.append("Some(%s)" % L.describe(po))
+            if want == "some":
+                n_some = n
+            else:
+                n_none = n
+        iff_ok = iff_ok and n_some > 0 and n_none > 0 and feas.edge_dominates(wbb, s_t, sbb)
+        tok_ok = tok_ok and n_some > 0
+    ctx.check(R, "closure-returns-the-token", tok_ok, "required: every Some(..) next_page can hold is the Ok payload of the serialize_page_token(..) call; %d value(s) examined on the Some edge of the test of last(items)%s" % (
+        n_some, "; found: " + "; ".join(bad) if bad else ""), (f, sbb))
+    ctx.check(R, "next_page-present-iff-last-is", iff_ok, "required: one test of last(items) (found %d), before every page is built; on the paths through its Some edge next_page can only be Some(token) (%d value(s) examined), "
+              "through its None edge only None (%d value(s) examined)%s" % (len(tests), n_some, n_none, "; found: " + "; ".join(bad) if bad else ""), (f, lbb))
+    # ---- token errors propagate (`?`, match + return Err, map_err, transpose: the same flow)
+    ends = L.err_flow(f, st["dest"]["l"])
     returned = [e for e in ends if e["kind"] == "returned"]
     unknown = [e for e in ends if e["kind"] != "returned"]
     passthrough = re.compile(r"convert::(From::from|Into::into)$")
     plain = all(all(t == ("from",) or (t[0] == "fn" and passthrough.search(t[1])) for t in e["transforms"]) for e in returned)
     sites = [e["bb"] for e in returned if e["bb"] is not None]
-    split = result_split(f, err_local)
+    # where the token Result (or the Result it was moved / transposed into) is split into its cases
+    split = None
+    for l in ends.results:
+        split = result_split(f, l)
+        if split:
+            break
     prop = bool(returned) and not unknown and plain and split is not None
     if prop:
         after = feas.after_edge(split["switch_bb"], split["err"])
@@ -222,4 +212,18 @@ SELFTEST = [
      "why": "behaviour-preserving: explicit as_slice(), an extra shared read of items"},
     {"name": "items-through-local", "kind": "benign", "edits": [(PG, _BUILD, "        let page_items = items;\n        Ok(ResultsPage { items: page_items, next_page })")],
      "why": "behaviour-preserving: items moved through a local, field order swapped in the literal"},
+    {"name": "map_or-ok-none", "kind": "benign",
+     "edits": [(PG, _CHAIN, "        let next_page = items.last().map_or(Ok(None), |final_item| {\n            serialize_page_token(get_page_selector(final_item, scan_params)).map(Some)\n        })?;\n"
+                "        debug_assert_eq!(next_page.is_some(), !items.is_empty());\n")],
+     "why": "behaviour-preserving: `.map(f).transpose()?` written as `.map_or(Ok(None), |i| f(i).map(Some))?` (the default Ok(None) is built before the test of last(items): "
+            "what counts is which value next_page can have on the paths through each edge of the test), plus a debug_assert! restating the rule"},
+    {"name": "token-helper-and-then", "kind": "benign",
+     "edits": [(PG, _CHAIN, "        let next_page = match items.last() {\n            None => None,\n            Some(tail) => Some(Ok(get_page_selector(tail, scan_params)).and_then(serialize_page_token)?),\n        };\n")],
+     "why": "behaviour-preserving: arms reordered, the token built by `Ok(selector).and_then(serialize_page_token)` (fn item as the combinator argument)"},
+    {"name": "map_or-token-error-becomes-none", "kind": "mutant",
+     "edits": [(PG, _CHAIN, "        let next_page = items.last().map_or(Ok::<_, HttpError>(None), |final_item| {\n            Ok(serialize_page_token(get_page_selector(final_item, scan_params)).ok())\n        })?;\n")],
+     "expect": ["C15.R1"], "why": "twin of map_or-ok-none: a token that cannot be issued silently ends the scan"},
+    {"name": "map_or-default-for-nonempty", "kind": "mutant",
+     "edits": [(PG, _CHAIN, "        let next_page = items.last().filter(|_| items.len() > 1).map_or(Ok(None), |final_item| {\n            serialize_page_token(get_page_selector(final_item, scan_params)).map(Some)\n        })?;\n")],
+     "expect": ["C15.R1"], "why": "twin of map_or-ok-none: a one-item page gets no token"},
 ]
